@@ -410,8 +410,8 @@ func runCtx(r *core.Run) {
 
 // Declare sites whose result cannot be false, with the reason.
 var declCannotFail = map[string]string{
-	"(*js.Parser).parseFunc ExprDecl":               "the name of a function expression is declared in the fresh function scope entered just before",
-	"(*js.Parser).parseAsyncArrowFunc ArgumentDecl":     "the single parameter is the first declaration in the fresh arrow-function scope",
+	"(*js.Parser).parseFunc ExprDecl":                    "the name of a function expression is declared in the fresh function scope entered just before",
+	"(*js.Parser).parseAsyncArrowFunc ArgumentDecl":      "the single parameter is the first declaration in the fresh arrow-function scope",
 	"(*js.Parser).parseIdentifierArrowFunc ArgumentDecl": "the single parameter is re-declared in the fresh arrow-function scope",
 }
 
